@@ -12,6 +12,7 @@ from vlib import schedfuzz, srvharness as SH, srvtargets as ST, vtime, watch
 from checks.c19 import judge_timeline, make_script
 
 PROPERTY = 'C09'
+EVALUATIONS_KEYS = ['scripts', 'lifetimes']
 LEVEL = 'exploration'
 RULE = ('(a) real servers: Sequential(unbatched upstream stage that fails some inputs, batched stage under test with batch_size 0/1/2/3/5, 1-3 competing '
         'thread or process workers, optional in-worker thread pool, preprocess rejecting some inputs) x arrival pattern {burst stream, trickle, lone '
@@ -57,7 +58,7 @@ def run_vtime(case):
     obs = {'scripts': 0, 'vt_batches': 0, 'vt_full': 0, 'vt_partial_timer': 0, 'vt_partial_end': 0, 'vt_ties_excluded': 0}
     viol = []
     sigs = []
-    real_pc = W.perf_counter
+    restores = []
     sample = None
     try:
         for _ in range(case['n_scripts']):
@@ -67,7 +68,9 @@ def run_vtime(case):
             arrivals = [(t, (('uid', i), x)) for i, (t, x) in enumerate(script['arrivals'][:-1])] + [(script['arrivals'][-1][0], None)]
             clock = vtime.VClock(arrivals[0][0] - 0.5)
             q = vtime.ScriptedQueue(clock, arrivals)
-            W.perf_counter = clock.perf_counter
+            restore, nb = vtime.bind_clock(W, clock)
+            restores.append(restore)
+            obs['clock_bindings'] = nb
             w = W.Worker(worker_index=0, batch_size=b, batch_wait_time=wait)
             w._batch_buffer = q
             w._batch_get_called = threading.Event()
@@ -107,7 +110,8 @@ def run_vtime(case):
             if len(viol) > 5:
                 break
     finally:
-        W.perf_counter = real_pc
+        for r in reversed(restores):
+            r()
     return {'violations': viol[:6], 'obs': obs, 'sigs': sigs, 'nontrivial': bool(sigs), 'sample': sample}
 
 
